@@ -101,6 +101,16 @@ Definition dispatch_duration (name : string) (a : list tok) : option (list tok *
   | "cmp_unit"%string, [TZ c; TZ n; TZ u] =>
       Some ([tcmp (dur_cmp_unit (from_parts c n) (unit_of_Z u))], [tcmp (Z.compare (pval c n) (suf u))])
   | "tz_offset"%string, [TZ sg; TZ h; TZ m] => Some (tdur (from_tz_offset sg h m), nospec)
+  | "compose"%string, [TZ sg; TZ d; TZ h; TZ mi; TZ s; TZ ms; TZ us; TZ ns] =>
+      let total := ((((d * 24 + h) * 60 + mi) * 60 + s) * 1000 + ms) * 1000000 + us * 1000 + ns in
+      Some (tdur (compose sg d h mi s ms us ns), sdur (clamp (if sg <? 0 then - total else total)))
+  | "compose_decompose"%string, [TZ c; TZ n] =>
+      let '(sg, (d, h, mi, s, ms, us, ns)) := decompose (from_parts c n) in
+      Some (tdur (compose sg d h mi s ms us ns), sdur (pval c n))
+  | "to_std"%string, [TZ c; TZ n] =>
+      let '(secs, sub) := to_std (from_parts c n) in let v := pval c n in
+      Some ([TZ secs; TZ sub], if v <? 0 then [TZ 0; TZ 0] else [TZ (v / 1000000000); TZ (v mod 1000000000)])
+  | "from_std"%string, [TZ secs; TZ sub] => Some (tdur (from_std secs sub), sdur (clamp (secs * 1000000000 + sub)))
   | _, _ => None
   end.
 
